@@ -41,6 +41,9 @@ def crystals():
     hexl = a * np.array([[0.5, 0.5, 0.], [-math.sqrt(3) / 2, math.sqrt(3) / 2, 0.], [0., 0., 0.62]])
     out['omegaR'] = (crystal.Crystal(hexl, [np.array([1. / 3., 2. / 3., .5]), np.array([2. / 3., 1. / 3., .5]), np.zeros(3)], chemistry=['A']),
                      0, 0.66 * a)
+    # the same structure with the Wyckoff sets interleaved in site index: sitelist [[0,2],[1]]
+    out['omegaI'] = (crystal.Crystal(hexl, [np.array([1. / 3., 2. / 3., .5]), np.zeros(3), np.array([2. / 3., 1. / 3., .5])], chemistry=['A']),
+                     0, 0.66 * a)
     return out
 
 
@@ -129,7 +132,8 @@ def monotonicity_oracle(ctx, named_calc):
             # omega2 barriers may be lowered without limit (large-omega2 algorithm); omega0/omega1 rates beyond ~1e9 times the
             # others are outside double precision (no property clause covers them) and the Green-function calculator refuses
             # diffusivity anisotropies beyond ~1e7 ("Problem isotropizing D?")
-            if ctx.quick: amt = rng.choice([1e-3, 0.1, 0.5, 2.0])
+            # tiny steps too (finite-difference use): inputs that differ by less than any rounding a cache key might apply
+            if ctx.quick: amt = rng.choice([1e-6, 1e-3, 0.1, 0.5, 2.0]) if which == 'eneT0' else rng.choice([1e-3, 0.1, 0.5, 2.0])
             elif which == 'eneT2': amt = rng.choice([1e-6, 1e-3, 0.1, 0.5, 2.0, 10.0, 40.0])
             elif which == 'eneT1': amt = rng.choice([1e-6, 1e-3, 0.1, 0.5, 2.0, 10.0, 20.0])
             else: amt = rng.choice([1e-6, 1e-3, 0.1, 0.5, 2.0, 6.0])
